@@ -496,7 +496,17 @@ fn recover(
                 page[PAGE_SIZE - 32 - 8..PAGE_SIZE - 32]
                     .copy_from_slice(&elided_children.to_bytes());
 
+                #[cfg(feature = "verif")]
+                crate::verif::io::before_fd(
+                    ht_fd.as_raw_fd(),
+                    crate::verif::io::Kind::Write {
+                        off: pn * PAGE_SIZE as u64,
+                        data: page[..].to_vec(),
+                    },
+                )?;
                 ht_fd.write_all_at(&page, pn * PAGE_SIZE as u64)?;
+                #[cfg(feature = "verif")]
+                crate::verif::io::after();
             }
         }
     }
@@ -513,7 +523,17 @@ fn recover(
             page_data[..].copy_from_slice(meta_map.page_slice(changed_meta_page_ix));
 
             let pn = ht_offsets.meta_bytes_index(changed_meta_page_ix as u64);
+            #[cfg(feature = "verif")]
+            crate::verif::io::before_fd(
+                ht_fd.as_raw_fd(),
+                crate::verif::io::Kind::Write {
+                    off: pn * PAGE_SIZE as u64,
+                    data: page_data.to_vec(),
+                },
+            )?;
             ht_fd.write_all_at(page_data, pn * PAGE_SIZE as u64)?;
+            #[cfg(feature = "verif")]
+            crate::verif::io::after();
 
             page_pool.dealloc(page);
         }
